@@ -115,6 +115,9 @@ class InterpreterAnalyzer(ASTTemplate):
     is_from_having: bool = False
     is_from_rule: bool = False
     is_from_join: bool = False
+    # Datasets shadowed by the join aliases of the statement being visited: alias -> previous
+    # entry of self.datasets (None when the alias was a new name); restored after the statement.
+    join_alias_shadowed: Optional[Dict[str, Optional[Dataset]]] = None
     is_from_hr_val: bool = False
     is_from_hr_agg: bool = False
     # Handlers for simplicity
@@ -157,6 +160,14 @@ class InterpreterAnalyzer(ASTTemplate):
                 ) and not isinstance(child, (AST.Assignment, AST.PersistentAssignment)):
                     raise SemanticError("1-2-5")
                 result = self.visit(child)
+                # A join alias is local to its statement: drop it / restore the dataset it shadowed,
+                # so that later statements do not depend on where the join statement is written.
+                for alias, previous in (self.join_alias_shadowed or {}).items():
+                    if previous is None:
+                        self.datasets.pop(alias, None)
+                    else:
+                        self.datasets[alias] = previous
+                self.join_alias_shadowed = None
                 if isinstance(result, Dataset) and result.name in self.datasets_inputs:
                     invalid_dataset_outputs.append(result.name)
                 if isinstance(result, Scalar) and result.name in self.scalars_inputs:
@@ -1060,8 +1071,13 @@ class InterpreterAnalyzer(ASTTemplate):
         for clause in node.clauses:
             clause_elements.append(self.visit(clause))
             if hasattr(clause, "op") and clause.op == AS:
-                # TODO: We need to delete somewhere the join datasets with alias that are added here
-                self.datasets[clause_elements[-1].name] = clause_elements[-1]
+                # The alias is registered for the rest of this statement only (visit_Start restores
+                # what it shadowed once the statement has been visited).
+                alias = clause_elements[-1].name
+                if self.join_alias_shadowed is None:
+                    self.join_alias_shadowed = {}
+                self.join_alias_shadowed.setdefault(alias, self.datasets.get(alias))
+                self.datasets[alias] = clause_elements[-1]
 
         nvl_defaults: Optional[Dict[str, Any]] = None
         if node.nvl:
